@@ -143,3 +143,45 @@ def rglob_exclusions(chk):
             if got != want:
                 _viol(chk, 'C16', 'rglob_applies_the_recursive_segment_to_exclusions_as_match_does', f'rglob({pats!r}, flags={fl}, {kw}) yields {got}; match() accepts {want}',
                       f"from wcmatch import pathlib\nfrom vlib.harness import trees\nwith trees.Tree({spec!r}) as t:\n    print(sorted(map(str, pathlib.Path(t.root).rglob({pats!r}, flags={fl}, **{kw!r}))))", pattern=str(pats))
+
+
+def case_of_literal_text(chk):
+    """C17: in case-insensitive mode the result of glob() does not depend on the case in which a literal segment is written (case-sensitive file system)."""
+    from wcmatch import glob as G
+    spec = {'docs': 'd', 'docs/a.txt': 'f', 'Docs': 'd', 'Docs/b.txt': 'f', 'DOCS': 'd', 'DOCS/c.txt': 'f', 'docs/sub': 'd', 'docs/sub/x.txt': 'f', 'Docs/SUB': 'd', 'Docs/SUB/y.txt': 'f', 'readme': 'f', 'README': 'f'}
+    with trees.Tree(spec) as t:
+        ents = t.entries()
+        for spellings, fl in ((('docs/*.txt', 'dOcS/*.txt', 'DOCS/*.txt', 'Docs/*.TXT'), G.I), (('docs/sub/*', 'DOCS/sub/*', 'docs/SUB/*', 'dOCs/sUb/*'), G.I), (('readme', 'README', 'ReadMe'), G.I),
+                              (('docs/', 'DOCS/', 'doCS/'), G.I), (('**/sub/*.txt', '**/SUB/*.txt', '**/Sub/*.TXT'), G.I | G.G), (('docs/*.txt', 'dOcS/*.txt'), G.I | G.C)):
+            res = {}
+            for p in spellings:
+                res[p] = sorted(x.rstrip('/') for x in G.glob(p, flags=fl | G.U | G.Q, root_dir=t.root))
+                chk.case(key=('case-of-literal', p, fl))
+            want = sorted(e for e in ents if G.globmatch(e, spellings[0], flags=fl | G.U) or (os.path.isdir(os.path.join(t.root, e)) and G.globmatch(e + '/', spellings[0], flags=fl | G.U)))
+            insensitive = not (fl & G.C)
+            for p, got in res.items():
+                exp = want if insensitive else sorted(e for e in ents if G.globmatch(e, p, flags=fl | G.U))
+                if got != exp:
+                    _viol(chk, 'C17', 'glob_result_is_independent_of_the_case_of_literal_pattern_text_in_insensitive_mode', f'glob({p!r}, IGNORECASE{"|CASE" if not insensitive else ""}) returns {got}; globmatch accepts {exp}',
+                          f"from wcmatch import glob\nfrom vlib.harness import trees\nwith trees.Tree({spec!r}) as t:\n    print(glob.glob({p!r}, flags={fl | G.U | G.Q}, root_dir=t.root))", pattern=p)
+
+
+def windows_bytes_twins(chk):
+    """C17: under the Windows rules a bytes pattern selects the same mode as its str twin - drive / UNC prefixes and separators written `\\/` included."""
+    from wcmatch import glob as G, fnmatch as F
+    pats = [r'c:\/x', r'C:\/X\/y', r'//host\/share/x', r'\\\\host\\share\/x', r'a\/b', r'a\/\/b', r'c:\\x\/*', r'//?/c:\/x', r'*\/b', r'[ab]\/c']
+    names = ['C:/x', 'c:/x', 'c:\\x', 'C:/X/y', 'c:/x/Y', '//host/share/x', '//HOST/SHARE/x', '/host/share/x', 'a/b', 'A\\b', 'a//b', 'c:/x/q', '//?/c:/x', 'z/b', 'b/c']
+    for api, nm in ((G, 'glob'), (F, 'fnmatch')):
+        for fl, fn in ((api.W, 'W'), (api.W | api.C, 'W|C'), (api.W | api.I, 'W|I'), (api.W | api.R, 'W|R')):
+            for p in pats:
+                for name in names:
+                    chk.case(key=('win-bytes', nm, fn, p, name))
+                    call = api.globmatch if api is G else api.fnmatch
+                    try:
+                        a = call(name, p, flags=fl)
+                        b = call(name.encode(), p.encode(), flags=fl)
+                    except Exception as e:
+                        a, b = 'exc', type(e).__name__
+                    if a != b:
+                        _viol(chk, 'C17', 'Windows_rules_bytes_pattern_selects_the_mode_of_its_str_twin', f'{nm}({name!r}, {p!r}, {fn}) is {a}, the bytes twin gives {b}',
+                              f"from wcmatch import {nm} as m\nprint(m.{'globmatch' if api is G else 'fnmatch'}({name.encode()!r}, {p.encode()!r}, flags={fl}))", pattern=p, name=name, fl=fn)
